@@ -1,10 +1,10 @@
-\* the tree before ef885bb, explored completely (no safety invariant): the wedge is permanent; edges exported
+\* quick: the tree before ef885bb, explored completely for every class of one violated clause (no safety invariant): the wedge is permanent; edges exported (pi_shape reference for behaviours that leave the required model)
 SPECIFICATION Spec
 CONSTANTS
   Guard = "AsCoded"
   Cmp = "hash"
   Setups <- SetsOne
-  Blocks <- BlocksUpTo2
+  Blocks <- BlocksUpTo1
   Seconds <- NoSeconds
   MaxRound = 1
   MaxRestarts = 2
@@ -12,6 +12,7 @@ CONSTANTS
   ByzVotes = "support"
   Loss = "none"
   Serve = "prefix"
+  Equiv = TRUE
 INVARIANTS TypeOK
 PROPERTIES WedgeIsPermanent
 ACTION_CONSTRAINT Edge
